@@ -293,6 +293,58 @@ func ruleFORMAT1(c *Ctx) {
 				return true
 			})
 			if len(tested) == 0 {
+				// the decision may be a private predicate over the very slice that is copied:
+				// `if !mustCanonicalize(src[:n], flags) { append(dst, src[:n]...) }`
+				var copiedExpr ast.Expr
+				for _, call := range findAll[*ast.CallExpr](ifs.Body) {
+					if IsBuiltin(info, call, "append") && len(call.Args) == 2 && call.Ellipsis != token.NoPos {
+						copiedExpr = call.Args[1]
+					}
+				}
+				for _, pc := range findAll[*ast.CallExpr](ifs.Cond) {
+					g := p.InlineAny(f)(pc)
+					if g == nil || g.Obj == nil || copiedExpr == nil {
+						continue
+					}
+					gsig := g.Obj.Type().(*types.Signature)
+					for ai, a := range pc.Args {
+						if exprString(a) != exprString(copiedExpr) || ai >= gsig.Params().Len() {
+							continue
+						}
+						pv := gsig.Params().At(ai)
+						var others []string
+						nLen := 0
+						InspectNoLit(g.Body(), func(nd ast.Node) bool {
+							be, ok := nd.(*ast.BinaryExpr)
+							if !ok {
+								return true
+							}
+							switch be.Op {
+							case token.LSS, token.LEQ, token.GTR, token.GEQ:
+							default:
+								return true
+							}
+							for _, pair := range [][2]ast.Expr{{be.X, be.Y}, {be.Y, be.X}} {
+								if tv, ok := g.Info().Types[pair[1]]; !ok || tv.Value == nil {
+									continue
+								}
+								if lc, ok := ast.Unparen(pair[0]).(*ast.CallExpr); ok && IsBuiltin(g.Info(), lc, "len") && len(lc.Args) == 1 && IdentObj(g.Info(), lc.Args[0]) == pv {
+									nLen++
+								} else if _, isConst := g.Info().Types[pair[0]]; isConst && g.Info().Types[pair[0]].Value != nil {
+									// constant folded comparison
+								} else {
+									others = append(others, exprString(pair[0]))
+								}
+							}
+							return true
+						})
+						if nLen > 0 {
+							nCopy++
+							c.Oblige(fmt.Sprintf("number-verbatim-length#%d", nCopy), ifs.Pos(), len(others) == 0,
+								"the verbatim copy of "+exprString(copiedExpr)+" is decided in "+g.Name+" by a length test on `"+strings.Join(others, ", ")+"` instead of on the bytes copied")
+						}
+					}
+				}
 				continue
 			}
 			nCopy++
@@ -349,12 +401,13 @@ func ruleFORMAT1(c *Ctx) {
 	if f := p.Func("jsontext.mustReorderObjectsFromDecoder"); f == nil || f.Body() == nil {
 		c.Undecide("jsontext.mustReorderObjectsFromDecoder", "function missing")
 	} else {
-		info := f.Info()
 		cmpObj := p.Method("jsontext", "objectMember", "Compare")
 		var bad []string
 		nCmp := 0
 		sorted := false
-		InspectNoLit(f.Body(), func(nd ast.Node) bool {
+		// the function and the private helpers it was split into
+		p.InspectScope(f, func(g *FuncInfo, nd ast.Node) bool {
+			info := g.Info()
 			call, ok := nd.(*ast.CallExpr)
 			if !ok {
 				return true
